@@ -24,3 +24,5 @@ LEVEL_NOTE = ("Proof about the Gallina model of query.go/lookup.go; ties to Go b
 
 def classify(desc, code):
     return None
+
+RULE = RULE + (" Failing peers fail with a plain error, a wrapped context.Canceled or a wrapped context.DeadlineExceeded (a third each, a function of the peer id) while the lookup's own context is alive.")
